@@ -500,6 +500,7 @@ func init() {
 				}
 			}
 		}
+		lockPaths(run, "client", "glow")
 		run.Assumption("delays are not modelled (virtual time); a hung dial is represented by refusal/reset; the Go map iteration order inside the client is not controlled, the harness observes which server was contacted")
 		return runJobCheck(run, "c11", jobs, "(a) reply shapes: every length 0..800, 1000, 4096, 65535 as zeros, as the genuine reply cut with rewritten prefix, as a short read, and as bodies of 0x00/0xFF/own-key bytes correctly timestamped and signed with the contacted server's real key, plus every server-list region length 0..150 signed by the real key, all against the real parser; (b) every sequence of per-attempt outcomes {refused, reset, short read, bad signature, tiny reply, success} for 1..3 configured servers with none/one/all banned and several shuffle answers, through the real sync round, followed by a send-loop tick, a second round and a client restart; distinct = (shape class, verdict) and (round result, attempts) classes")
 	}
